@@ -23,7 +23,7 @@ def exDb : Db :=
   [ { decls := [⟨sP, v10, sLinux⟩], tags := [⟨sStable, sP, sLinux, v10⟩] },
     { decls := [⟨sP, v10, sLinux⟩, ⟨sP, v20, sLinux⟩, ⟨sP, v30, sGeneric⟩],
       tags := [⟨sCurrent, sP, sLinux, v20⟩, ⟨sCurrent, sP, sGeneric, v30⟩] } ]
-def exCtx : Ctx := mkCtx simpleOrd [sCurrent, sStable, sBeta] exDb .files sLinux []
+def exCtx : Ctx := mkCtx simpleOrd [sCurrent, sStable, sBeta] exDb .files [sLinux, sGeneric] []
 def exReq (version : Option Str) (depth : Nat) : Req :=
   { name := sP, version := version, vexpr := none, depth := depth, flavor := sLinux,
     ignoreVersions := false, already := none }
@@ -421,40 +421,70 @@ example : resolve exCtx (exReq (some [62, 61, 32, 50, 46, 48]) 0) false defaultV
 example : resolve exCtx (exReq (some [62, 61, 32, 51, 46, 48]) 0) false defaultVro [sLinux, sGeneric]
     = .ok (some ⟨⟨v30, sGeneric, 1⟩, kVersionExpr, kVersionExpr⟩) := by decide
 
-/-! ## through the cache (D16) -/
+/-! ## through the cache (D16, repaired by 9143b09) -/
 
-/-- Through the cache of a process that rebuilt every stack it reads — or for a request in the native
-flavor, whatever was accepted — `findProductFromVRO` gives the answer it gives through the files.
-(`Mode.mixed`, i.e. `noCache=True` on an instance with loaded caches, included.) -/
-theorem C03_fallback_via_cache_partial (o : Ord) (tags : List Str) (db : Db) (native : Str)
+/-- Through the cache — whatever was accepted or rebuilt, `noCache=True` on a cached instance
+(`Mode.mixed`) included — `findProductFromVRO` gives, for every flavor the process loads (the native
+flavor and its fallbacks), the answer it gives through the files. -/
+theorem C03_cache_view_agrees (o : Ord) (tags : List Str) (db : Db) (loaded : List Str)
     (accepted : List Bool) (r : Req) (vro : List Str) (m : Mode)
-    (hyp : (∀ b ∈ accepted, b = false) ∨ r.flavor = native) :
-    find (mkCtx o tags db m native accepted) r vro = find (mkCtx o tags db .files native accepted) r vro := by
+    (hyp : (∀ b ∈ accepted, b = false) ∨ r.flavor ∈ loaded) :
+    find (mkCtx o tags db m loaded accepted) r vro = find (mkCtx o tags db .files loaded accepted) r vro := by
   rcases hyp with h | h
-  · have := cacheView_all_rebuilt native accepted db h
+  · have := cacheView_all_rebuilt loaded accepted db h
     cases m <;> simp [mkCtx, this]
-  · have hv : ViewsAgree r.flavor (cacheView native accepted db) db := by
-      rw [h]; exact cacheView_agree_native native accepted db
+  · have hv : ViewsAgree r.flavor (cacheView loaded accepted db) db := cacheView_agree h accepted db
     cases m
     · rfl
-    · exact find_view_congr (C := mkCtx o tags db .cache native accepted)
-        (C' := mkCtx o tags db .files native accepted) rfl rfl hv hv vro
-    · exact find_view_congr (C := mkCtx o tags db .mixed native accepted)
-        (C' := mkCtx o tags db .files native accepted) rfl rfl (viewsAgree_refl _ _) hv vro
+    · exact find_view_congr (C := mkCtx o tags db .cache loaded accepted)
+        (C' := mkCtx o tags db .files loaded accepted) rfl rfl hv hv vro
+    · exact find_view_congr (C := mkCtx o tags db .mixed loaded accepted)
+        (C' := mkCtx o tags db .files loaded accepted) rfl rfl (viewsAgree_refl _ _) hv vro
 
-/-- Without that hypothesis the clause is false of the code (D16): `p 3.0` is declared for the
-fallback flavor only; a fresh process that accepts the native-flavor cache of the stack does not see
-it, the files do. -/
+/-- The flavor loop through the cache is the flavor loop through the files: the process loads the
+native flavor and its fallbacks, which are the flavors the loop visits, so whatever stacks had their
+cache accepted or rebuilt the answer is the same — no hypothesis on the load outcome is left. -/
+theorem C03_fallback_via_cache (o : Ord) (tags : List Str) (db : Db) (native : Str) (fallbacks : List Str)
+    (accepted : List Bool) (r : Req) (keep : Bool) (vro : List Str) (m : Mode) :
+    resolve (mkCtx o tags db m (native :: fallbacks) accepted) r keep vro (native :: fallbacks) =
+      resolve (mkCtx o tags db .files (native :: fallbacks) accepted) r keep vro (native :: fallbacks) := by
+  cases m
+  · rfl
+  · exact resolve_view_congr (C := mkCtx o tags db .cache (native :: fallbacks) accepted)
+      (C' := mkCtx o tags db .files (native :: fallbacks) accepted) r keep vro _ rfl rfl
+      (fun f hf => cacheView_agree hf accepted db) (fun f hf => cacheView_agree hf accepted db)
+  · exact resolve_view_congr (C := mkCtx o tags db .mixed (native :: fallbacks) accepted)
+      (C' := mkCtx o tags db .files (native :: fallbacks) accepted) r keep vro _ rfl rfl
+      (fun f _ => viewsAgree_refl f db) (fun f hf => cacheView_agree hf accepted db)
+
+/-- so a native-flavor declaration is preferred, and the fallback used otherwise, through the cache as
+through the files: `C03_native_flavor_first` read through any cache view -/
+theorem C03_native_flavor_first_via_cache (o : Ord) (tags : List Str) (db : Db) (native : Str)
+    (fallbacks : List Str) (accepted : List Bool) (m : Mode) (r : Req) (keep : Bool) (vro : List Str) (h : Hit)
+    (hr : r.already = none)
+    (hf : find (mkCtx o tags db .files (native :: fallbacks) accepted) { r with flavor := native } vro = .ok (some h))
+    (hacc : acceptableB r h = .ok true) :
+    resolve (mkCtx o tags db m (native :: fallbacks) accepted) r keep vro (native :: fallbacks) = .ok (some h) ∧
+      h.prod.flavor = native := by
+  rw [C03_fallback_via_cache]
+  exact C03_native_flavor_first _ r keep vro native fallbacks h hr hf hacc
+
+/-- On the pinned tree (before 9143b09) the clause was false (D16): `p 3.0` is declared for the fallback
+flavor only; a fresh process that accepts the cache of the stack reads it for the native flavor alone
+(`mkCtxPinned`) and does not see the declaration, the files do. -/
 theorem C03_fallback_via_cache_witness :
     let db : Db := [{ decls := [⟨sP, v20, sLinux⟩, ⟨sP, v30, sGeneric⟩], tags := [⟨sCurrent, sP, sGeneric, v30⟩] }]
     let r : Req := { exReq none 0 with flavor := sGeneric }
-    find (mkCtx simpleOrd [sCurrent] db .cache sLinux [true]) r defaultVro = .ok none ∧
-    find (mkCtx simpleOrd [sCurrent] db .files sLinux [true]) r defaultVro
+    find (mkCtxPinned simpleOrd [sCurrent] db .cache sLinux [true]) r defaultVro = .ok none ∧
+    find (mkCtxPinned simpleOrd [sCurrent] db .files sLinux [true]) r defaultVro
       = .ok (some ⟨⟨v30, sGeneric, 0⟩, sCurrent, sCurrent⟩) ∧
-    resolve (mkCtx simpleOrd [sCurrent] db .cache sLinux [true]) { exReq (some v30) 0 with } false defaultVro
+    resolve (mkCtxPinned simpleOrd [sCurrent] db .cache sLinux [true]) { exReq (some v30) 0 with } false defaultVro
       [sLinux, sGeneric] = .ok none ∧
-    resolve (mkCtx simpleOrd [sCurrent] db .files sLinux [true]) { exReq (some v30) 0 with } false defaultVro
-      [sLinux, sGeneric] = .ok (some ⟨⟨v30, sGeneric, 0⟩, kCommandLine, kVersion⟩) := by
+    resolve (mkCtxPinned simpleOrd [sCurrent] db .files sLinux [true]) { exReq (some v30) 0 with } false defaultVro
+      [sLinux, sGeneric] = .ok (some ⟨⟨v30, sGeneric, 0⟩, kCommandLine, kVersion⟩) ∧
+    -- the repaired rule on the same input sees it
+    resolve (mkCtx simpleOrd [sCurrent] db .cache [sLinux, sGeneric] [true]) { exReq (some v30) 0 with } false
+      defaultVro [sLinux, sGeneric] = .ok (some ⟨⟨v30, sGeneric, 0⟩, kCommandLine, kVersion⟩) := by
   decide
 
 /-! ## where `selectVRO` puts the -t and -T tags (default configuration) -/
